@@ -17,7 +17,7 @@ CHECKS = {
                      'Quick: both lookup tables completely (flush path in every order; every rank multiset through the real perfect hash in sorted order), order independence of the flush path outright and of the whole function on a seed-chosen 4-rank window.',
                 note='Trusted: Kani->CBMC translation, CaDiCaL, the oracle kani/spec_class.rs (validated natively against the definitional min-over-21-subsets classifier on all 133,784,560 hands).', ref='6/C01'),
     'C02': dict(level='model_checking', engine='mirx', technique=MT + '; one inductive step of next() from an arbitrary valid iterator state (symbolic flop, deck, position, scope, odometer, entry lists of symbolic length with uninterpreted elements)',
-                text='One frame of next() either yields the deal at the current position p (then p is legal, the showdown carries flop+turn+river, the selected combos in player order, the left-to-right f32 product, and the iterator is left at succ(p)), '
+                text='One frame of next() (from function entry, and again from the loop head with the loop-carried locals of a first trip) either yields the deal at the current position p (then p is legal, the showdown carries flop+turn+river, the selected combos in player order, the left-to-right f32 product, and the iterator is left at succ(p)), '
                      'or skips p (then p is illegal and iteration continues at succ(p)), or returns None (then p is the scope end). By induction over the finite position order the yielded sequence is exactly the legal deals, each once. Bound: player count.',
                 note='Assumes the representation invariant (proved preserved in C04/C08), S1 (set model), S8 (uninterpreted hand strength); entry-list order is arbitrary (HashMap order). Self-call / loop back edge handled by assume-guarantee, well-founded by the ranking obligation of C08.', ref='6/C02'),
     'C03': dict(level='model_checking', engine='kani', technique=KT + '; evaluator stubbed by an uninterpreted function (kani::stub) so every tie pattern is in the space',
@@ -40,7 +40,7 @@ CHECKS = {
                 note='Actual stack bytes are outside the reach of a solver: the stack clause is a sufficient condition plus native amplification.', ref='6/C08'),
     'C09': dict(level='model_checking', engine='kani+mirx', technique=KT + ' for the byte parsers; ' + MT + ' for the token parser and its consumers',
                 text='Rank/Suit/Card/CardPair::from_str on every well-formed UTF-8 string of <= 6 bytes (Kani); HandRangeToken::from_str on every well-formed UTF-8 string of 0..Lmax bytes, then into_iter and to_string on every Ok token: no path ends in a panic.',
-                note='Bound: 6 bytes (byte parsers), Lmax = 7 (quick) / 13 (thorough) bytes per token. S2-S7.', ref='6/C09'),
+                note='Bounds: byte parsers 6 bytes (Kani) and 12/20 bytes (Engine M); token strings 7 (quick) / 13 (thorough) bytes; whole range strings with symbolic commas and spaces 5 / 7 bytes, a sample of the parsed ranges pushed through rank_pairs, orphan_card_pairs, to_string and the evaluator. S2-S7.', ref='6/C09'),
     'C10': dict(level='model_checking', engine='mirx', technique=MT,
                 text='On every Ok path of the token parser over symbolic strings each expanded combo has two different cards and a weight in [0,1] (z3 FP); product lemma x,y in [0,1] => x*y in [0,1]; the no-card-twice consequence is the legality obligation of C02.',
                 note='Bound: token length; weight literals <= 7 significant digits exact, longer by interval (S3).', ref='6/C10'),
@@ -50,18 +50,18 @@ CHECKS = {
     'C12': dict(level='model_checking', engine='mirx', technique=MT + '; map with symbolic presence flags so that 3^k patterns are covered by a handful of paths',
                 text='rank_pairs() reports R with weight w iff all combos of R are present with f32-equal weight w; orphan_card_pairs() is exactly the present combos not covered by a reported pair with their own weights; the two views partition card_pairs().',
                 note='Populated: one rank pair (thorough: also 34 two-rank-pair configurations) + 2 stray combos; everything else absent. S1.', ref='6/C12'),
-    'C13': dict(level='proof', engine='kani', technique=KT,
+    'C13': dict(level='proof', engine='kani+mirx', technique=KT + '; Display/parse of all 52 cards by MIR symbolic execution + z3',
                 text='Every domain named by the property is finite and covered completely by symbolic inputs (52 cards, 13 ranks, 4 suits, 52 words, ordered endpoint pairs, 1- and 2-char ASCII texts, all chars).',
                 note='Reversed range endpoints and non-ASCII text belong to C09.', ref='6/C13'),
-    'C14': dict(level='proof', engine='kani', technique=KT,
+    'C14': dict(level='proof', engine='kani+mirx', technique=KT + '; text obligations by MIR symbolic execution + z3',
                 text='All 52x51 ordered pairs symbolic: new(a,b)==new(b,a), canonical order, same card set, identical byte sequences fed to an arbitrary Hasher; both card orders of a text parse to new(c0,c1).',
                 note='Hash equality shown for every hasher via a recording Hasher.', ref='6/C14'),
     'C15': dict(level='model_checking', engine='mirx', technique=MT + ' over a two-iterator schedule; MIR audit for static/thread-local items; compile-time Send + Sync assertion (rustc) for the thread clause',
                 text='Interleavings: the outcomes of one iterator\'s next() are identical whether or not another iterator\'s next() ran first in the same machine, from fully symbolic states; the only memory two calls could share (static / thread-local items) is explicit in MIR and audited. Thread schedules are NOT explored: the claim there is type-level only (Send + Sync of the public types).',
                 note='Kani does not model threads and Engine M has no memory model for data races; the step from no shared mutable state + Send/Sync to any thread schedule is the safety guarantee of Rust, assumed.', ref='6/C15'),
     'C16': dict(level='model_checking', engine='mirx', technique=MT + ' with the f32 kernel in the FloatingPoint theory of z3 (fp.sqrt, roundToIntegral, fmod as x - RTZ(x), saturating casts)',
-                text='Two consecutive loop iterations of calculate_scopes from the real MIR with symbolic (count, i): no overflow assert fires, chain, first start (0,1), last end (48,49), monotone, every end a valid position.',
-                note='Bound: worker count N (quick 32, thorough 256). Translator validated against native runs bit for bit.', ref='6/C16'),
+                text='One symbolic loop iteration of calculate_scopes from the real MIR with symbolic (count, i), pair obligations by instantiation at i and i+1: no overflow assert fires, chain, first start (0,1), last end (48,49), monotone, every end a valid position.',
+                note='Concrete-sqrt runs: worker count N (quick 32, thorough 256). Abstract runs (sqrt replaced by an arbitrary s in [0,1], tied to the real argument by solver-decided lemmas): every count <= 2^24 for no-overflow, valid end, first start, last end; never-steps-backwards beyond N rests on the monotonicity of fp.div/fp.sqrt (assumed, stated in evidence). Translator validated against native runs bit for bit.', ref='6/C16'),
     'C17': dict(level='model_checking', engine='mirx', technique=MT + '; assertions on the token sequence emitted by the real Display::fmt on symbolic ranges',
                 text='Order of tokens, complete rank pairs <=> rank-pair tokens, right token kind per run, adjacent tokens never mergeable, identical text under a different slot order of the map model.',
                 note='Same window configurations as C06. Construction histories are represented by slot orders of the map model (S1).', ref='6/C17'),
